@@ -6,6 +6,7 @@ struct EigenAssert : std::logic_error { EigenAssert(const char* s) : std::logic_
 #include <Eigen/Core>
 #include <Eigen/LU>
 #include <cstdio>
+#include <complex>
 #include <Spectra/LinAlg/BKLDLT.h>
 #include <Spectra/MatOp/DenseSymShiftSolve.h>
 using namespace Spectra;
@@ -22,8 +23,43 @@ static Eigen::MatrixXd make(int n, int pat) {
     A(i, j) = v; A(j, i) = v; }
   return A;
 }
+// complex Hermitian / row-major family: both triangles of the same Hermitian matrix, both storage orders
+template <int Order>
+static void hermitian_family() {
+  typedef std::complex<double> C; typedef Eigen::Matrix<C, Eigen::Dynamic, Eigen::Dynamic, Order> CM; typedef Eigen::Matrix<C, Eigen::Dynamic, 1> CV;
+  typedef Eigen::Matrix<double, Eigen::Dynamic, Eigen::Dynamic, Order> RM;
+  for (int n = 2; n <= 7; n++) for (int pat = 0; pat < 4; pat++) for (int sh = 0; sh < 2; sh++) {
+    Eigen::MatrixXd Ar = make(n, pat); CM A(n, n); RM R = Ar;
+    for (int i = 0; i < n; i++) for (int j = 0; j <= i; j++) { C v(Ar(i, j), i == j ? 0.0 : 0.25 * (1 + ((i + 2 * j) % 3))); A(i, j) = v; A(j, i) = std::conj(v); }
+    const double sigma = sh ? 0.37 : 0.0;
+    CM L = A.template triangularView<Eigen::Lower>(), U = A.template triangularView<Eigen::Upper>();
+    BKLDLT<C> sl(L, Eigen::Lower, sigma), su(U, Eigen::Upper, sigma);
+    if (sl.info() != su.info()) { fail(Order == Eigen::RowMajor ? "Hermitian row-major: lower/upper status differ" : "Hermitian col-major: lower/upper status differ", n, pat); continue; }
+    CM As = A - C(sigma) * CM::Identity(n, n);
+    if (sl.info() == CompInfo::Successful && std::abs(Eigen::MatrixXcd(As).determinant()) > 1e-8) {
+      CV b = CV::LinSpaced(n, C(1, 0), C(2, 0)); for (int i = 0; i < n; i++) b[i] += C(0, 0.5 * i);
+      CV x = sl.solve(b), y = su.solve(b);
+      double res = (As * x - b).norm(), scale = As.norm() * x.norm() + b.norm();
+      if (!(res <= 1e3 * n * 2.2e-16 * scale)) fail(Order == Eigen::RowMajor ? "Hermitian row-major lower: residual too large" : "Hermitian col-major lower: residual too large", n, pat);
+      double res2 = (As * y - b).norm();
+      if (!(res2 <= 1e3 * n * 2.2e-16 * scale)) fail(Order == Eigen::RowMajor ? "Hermitian row-major UPPER triangle: residual too large (entries not conjugated?)" : "Hermitian col-major UPPER triangle: residual too large", n, pat);
+      if ((x - y).norm() > 1e-9 * (1 + x.norm())) fail("Hermitian: lower/upper results differ", n, pat);
+    }
+    // real symmetric in this storage order
+    RM Lr = R.template triangularView<Eigen::Lower>(), Ur = R.template triangularView<Eigen::Upper>();
+    BKLDLT<double> rl(Lr, Eigen::Lower, sigma), ru(Ur, Eigen::Upper, sigma);
+    if (rl.info() != ru.info()) { fail("real, this storage order: lower/upper status differ", n, pat); continue; }
+    Eigen::MatrixXd Rs = Ar - sigma * Eigen::MatrixXd::Identity(n, n);
+    if (rl.info() == CompInfo::Successful && std::abs(Rs.determinant()) > 1e-8) {
+      Eigen::VectorXd b = Eigen::VectorXd::LinSpaced(n, 1, 2), x = rl.solve(b), y = ru.solve(b);
+      if (!((Rs * x - b).norm() <= 1e3 * n * 2.2e-16 * (Rs.norm() * x.norm() + b.norm()))) fail("real, this storage order: residual too large", n, pat);
+      if ((x - y).norm() > 1e-9 * (1 + x.norm())) fail("real, this storage order: lower/upper results differ", n, pat);
+    }
+  }
+}
 int main() {
   try {
+  hermitian_family<Eigen::ColMajor>(); hermitian_family<Eigen::RowMajor>();
   { Eigen::MatrixXd A(1, 1); A(0, 0) = 2.0; BKLDLT<double> s(A);
     if (s.info() != CompInfo::Successful) fail("info() != Successful for the nonsingular 1x1 matrix [2]", 1, -1);
     Eigen::VectorXd b(1); b[0] = 4.0; Eigen::VectorXd x = s.solve(b); if (std::abs(x[0] - 2.0) > 1e-14) fail("1x1 solve wrong", 1, -1);
